@@ -163,6 +163,8 @@ class World:
             return rel.join(self.operand(c["rhs"]), None if p == {"p": "lit", "v": True} else build.pred(p))
         if f == "joinl":
             return self.operand(c["lhs"]).join(rel)
+        if f == "joinself":
+            return rel.join(rel)
         if f == "chain":
             return rel.chain(self.operand(c["rhs"]))
         if f == "chainl":
@@ -183,9 +185,9 @@ class World:
             if f == "un":
                 op = build.unary_op(c["op"])
                 t = UnaryOperationRelation(operation=op, target=t, columns=frozenset(op.applied_columns(t)))
-            elif f in ("join", "joinl"):
-                other = self.operand(c["rhs"] if f == "join" else c["lhs"])
-                lhs, rhs = (t, other) if f == "join" else (other, t)
+            elif f in ("join", "joinl", "joinself"):
+                other = t if f == "joinself" else self.operand(c["rhs"] if f == "join" else c["lhs"])
+                lhs, rhs = (t, other) if f != "joinl" else (other, t)
                 common = frozenset(x for x in lhs.columns & rhs.columns if x.is_key)
                 p = c.get("p", {"p": "lit", "v": True})
                 jop = ops.Join(build.pred(p), min_columns=common, max_columns=common)
